@@ -7,7 +7,8 @@
 (*   slots  per slot: is a topology loaded there, its projection digest    *)
 (*          and flags                                                      *)
 (*   seen   outcome of the first load for every key                        *)
-(*          (snapshot, removed paths, environment, filter preset, flags)   *)
+(*          (snapshot, removed paths, environment, filter preset, type     *)
+(*          filter, flags)                                                 *)
 (*   known  digest -> projection, for the projections logged in this       *)
 (*          behaviour (the recorder logs a projection once per behaviour   *)
 (*          in compact mode and names it by its digest afterwards)         *)
@@ -15,14 +16,16 @@
 (*          verdict is already known to be TRUE: both are functions of     *)
 (*          the projection alone, so the verdict is reused, never assumed  *)
 (*   oos    the behaviour removed an instance directory on its own: it is  *)
-(*          outside the property and nothing more is demanded of it        *)
+(*          outside the property and nothing more is demanded of it; or    *)
+(*          one of its events was rejected already                         *)
+(*   bad    number of rejected events so far                                *)
 (***************************************************************************)
 EXTENDS Snapshot, Json, IOUtils, TLC
 
 T == ndJsonDeserialize(IOEnv.TRACE)
 
-VARIABLES l, snap, rem, env, slots, seen, known, wf, eq, oos
-vars == <<l, snap, rem, env, slots, seen, known, wf, eq, oos>>
+VARIABLES l, snap, rem, env, slots, seen, known, wf, eq, oos, bad
+vars == <<l, snap, rem, env, slots, seen, known, wf, eq, oos, bad>>
 
 NSlots == 3
 NoSnap == [id |-> "", kind |-> ""]
@@ -30,7 +33,7 @@ ZeroPd == <<0, 0, 0, 0>>
 DeadSlot == [live |-> FALSE, pd |-> ZeroPd, flags |-> 0]
 
 Init == /\ l = 1 /\ snap = NoSnap /\ rem = {} /\ env = {} /\ slots = [k \in 1..NSlots |-> DeadSlot]
-        /\ seen = {} /\ known = {} /\ wf = {} /\ eq = {} /\ oos = FALSE
+        /\ seen = {} /\ known = {} /\ wf = {} /\ eq = {} /\ oos = FALSE /\ bad = 0
 
 IsEvent(e) == l <= Len(T) /\ T[l].e = e /\ l' = l + 1
 E == T[l]
@@ -53,18 +56,18 @@ SeenOut(key) == (CHOOSE x \in seen : x.key = key).out
 TReset == /\ IsEvent("Reset")
           /\ snap' = NoSnap /\ rem' = {} /\ env' = {} /\ slots' = [k \in 1..NSlots |-> DeadSlot]
           /\ seen' = {} /\ known' = {} /\ oos' = FALSE
-          /\ UNCHANGED <<wf, eq>>
+          /\ UNCHANGED <<wf, eq, bad>>
 
 \* the environment is part of the key of a load
 TEnv == /\ IsEvent("env") /\ ~oos
         /\ E.name \notin {"HWLOC_FSROOT", "HWLOC_CPUID_PATH"}          \* those two are set by the recorder from the copy
         /\ env' = {p \in env : p[1] # E.name} \cup (IF E.value = "-" THEN {} ELSE {<<E.name, E.value>>})
-        /\ UNCHANGED <<snap, rem, slots, seen, known, wf, eq, oos>>
+        /\ UNCHANGED <<snap, rem, slots, seen, known, wf, eq, oos, bad>>
 
 TCopy == /\ IsEvent("copy") /\ ~oos
          /\ E.kind \in SnKinds
          /\ snap' = [id |-> E.snap, kind |-> E.kind] /\ rem' = {}
-         /\ UNCHANGED <<env, slots, seen, known, wf, eq, oos>>
+         /\ UNCHANGED <<env, slots, seen, known, wf, eq, oos, bad>>
 
 \* a path is removed from the copy: ret 0 = removed now, 1 = it was already gone with a directory above it
 TRemove == /\ IsEvent("remove") /\ ~oos
@@ -74,78 +77,143 @@ TRemove == /\ IsEvent("remove") /\ ~oos
            /\ E.kind \in {"file", "symlink", "dir", "gone"}
            /\ rem' = rem \cup {E.path}
            /\ oos' = (E.ret = 0 /\ ~SnRemovable(E.kind, E.path))
-           /\ UNCHANGED <<snap, env, slots, seen, known, wf, eq>>
+           /\ UNCHANGED <<snap, env, slots, seen, known, wf, eq, bad>>
 
 TDestroy == /\ IsEvent("destroy") /\ ~oos
             /\ slots[E.slot + 1].live
             /\ slots' = [slots EXCEPT ![E.slot + 1] = DeadSlot]
-            /\ UNCHANGED <<snap, rem, env, seen, known, wf, eq, oos>>
+            /\ UNCHANGED <<snap, rem, env, seen, known, wf, eq, oos, bad>>
+
+\* ---- rejected events ----
+\* An event whose relation is false (or a Crash / Hang / Leak event) is REJECTED: it is counted in `bad` (the final TAccept
+\* step, which the postcondition demands, needs bad = 0), printed with the name of the part of the relation that is false
+\* and, for diagnostics only, the false WellFormed clauses / the differing fields, and the rest of its behaviour is not
+\* judged (as when validation used to stop at the event and resume with the next behaviour).  One TLC run thus reports
+\* every rejected behaviour of a trace.
+Reject(what, why) == /\ PrintT(<<"REJECT", l, what, why>>)
+                     /\ bad' = bad + 1 /\ oos' = TRUE
+
+\* diagnostics (never part of a verdict): DiagSnapshot.tla's and DiagXml.tla's questions, asked where the event is rejected
+InclusionsButMemCcs(t) ==
+  \A i \in Pos(t) : LET o == O(t, i) IN
+    HasSets(o) =>
+      /\ CS(o) \subseteq CCS(o) /\ NS(o) \subseteq CNS(o)
+      /\ (o.parent # 0 /\ HasSets(O(t, o.parent))) =>
+           LET p == O(t, o.parent) IN
+           /\ CS(o) \subseteq CS(p) /\ (IsMem(o) \/ CCS(o) \subseteq CCS(p))
+           /\ NS(o) \subseteq NS(p) /\ CNS(o) \subseteq CNS(p)
+MemCcsInclusionOnly(t) == LinksResolved(t) /\ ~SetInclusions(t) /\ InclusionsButMemCcs(t)
+MemCcsOnly(a0, b0, flags) ==
+  LET a == TopoCoreF(a0, Bit(flags, TOPO_FLAG_IMPORT_SUPPORT), flags)
+      b == TopoCoreF(b0, Bit(flags, TOPO_FLAG_IMPORT_SUPPORT), flags) IN
+  /\ [a EXCEPT !.objs = <<>>] = [b EXCEPT !.objs = <<>>]
+  /\ Len(a.objs) = Len(b.objs)
+  /\ \A i \in 1..Len(a.objs) : LET x == a.objs[i]  y == b.objs[i] IN
+        x # y => /\ IsMem(x) /\ [x EXCEPT !.ccs = y.ccs] = y
+                 /\ x.parent \in 1..Len(a.objs) /\ x.ccs # a.objs[x.parent].ccs /\ y.ccs = b.objs[x.parent].ccs
+  /\ \E i \in 1..Len(a.objs) : a.objs[i] # b.objs[i]
+WfDiag(t) == LET all == {Clauses[k] : k \in {j \in 2..Len(Clauses) : ~Clause(t, Clauses[j])}} IN
+             /\ PrintT(<<"FIRSTBAD", l, FirstBad(t, 1)>>)
+             /\ PrintT(<<"ALLBAD", l, all>>)
+             /\ ("SetInclusions" \in all) => PrintT(<<"MEMCCSINCLUSIONONLY", l, MemCcsInclusionOnly(t)>>)
 
 \* ---- load: relations (1) (2) (3) ----
-TLoad ==
-  /\ IsEvent("load") /\ ~oos
+LS == E.slot + 1
+LLegal == FlagsLegal(E.flags)
+LFlags == IF LLegal THEN E.flags ELSE 0
+LKey == [snap |-> snap.id, rem |-> rem, env |-> env, filt |-> E.filt, tty |-> E.tty, tf |-> E.tf, flags |-> LFlags]
+LOk == E.ret = 0
+LOut == [ret |-> E.ret, pd |-> E.pds[LS]]
+\* what the recorder did and logged around the load
+LoadShape ==
   /\ snap # NoSnap
   /\ ShapeOK
-  /\ LET s == E.slot + 1
-         legal == FlagsLegal(E.flags)
-         flags == IF legal THEN E.flags ELSE 0
-         key == [snap |-> snap.id, rem |-> rem, env |-> env, filt |-> E.filt, flags |-> flags]
-         ok == E.ret = 0
-         out == [ret |-> E.ret, pd |-> E.pds[s]]
-     IN
-     /\ s \in 1..NSlots /\ ~slots[s].live
-     /\ \A k \in 1..NSlots : k # s => Absent(k)
-     /\ E.filt \in SnPresetSet /\ E.setfilt = 0
-     /\ E.setflags = (IF legal THEN 0 ELSE -1)
-     /\ E.errno \in STRING
-     \* (1) fails cleanly or yields a well-formed topology carrying the configuration
-     /\ \/ LoadFails(E.ret, E.live[s]) /\ Absent(s)
-        \/ /\ HasTopo(s) /\ FullConsistent(s)
-           /\ LoadYields(E.ret, E.live[s], TopoAt(s), E.filt, flags)
-           /\ \A p \in env : p[1] = "HWLOC_COMPONENTS" => ConfigRespected(TopoAt(s), flags, snap.kind, p[2])
-           /\ IF E.pds[s] \in wf THEN TRUE ELSE WellFormed(TopoAt(s))      \* IF, not \/: TLC would evaluate both disjuncts
-     \* (2) same key, same outcome
-     /\ SeenKey(key) => Deterministic(SeenOut(key), out)
-     \* (3) INCLUDE_DISALLOWED against the load of the same key without the flag, whichever came first
-     /\ (ok /\ Bit(flags, FLAG_INCLUDE_DISALLOWED)) =>
-          LET k0 == [key EXCEPT !.flags = flags - FLAG_INCLUDE_DISALLOWED] IN
-          (SeenKey(k0) /\ SeenOut(k0).ret = 0) => DisallowedRel(KnownTopo(SeenOut(k0).pd), TopoAt(s))
-     /\ (ok /\ ~Bit(flags, FLAG_INCLUDE_DISALLOWED)) =>
-          LET k1 == [key EXCEPT !.flags = flags + FLAG_INCLUDE_DISALLOWED] IN
-          (SeenKey(k1) /\ SeenOut(k1).ret = 0) => DisallowedRel(TopoAt(s), KnownTopo(SeenOut(k1).pd))
-     /\ seen' = IF SeenKey(key) THEN seen ELSE seen \cup {[key |-> key, out |-> out]}
-     /\ wf' = IF ok THEN wf \cup {E.pds[s]} ELSE wf
-     /\ known' = IF ok THEN Learn({s}) ELSE known
-     /\ slots' = [slots EXCEPT ![s] = IF ok THEN [live |-> TRUE, pd |-> E.pds[s], flags |-> flags] ELSE DeadSlot]
-  /\ UNCHANGED <<snap, rem, env, eq, oos>>
+  /\ LS \in 1..NSlots /\ ~slots[LS].live
+  /\ \A k \in 1..NSlots : k # LS => Absent(k)
+  /\ E.filt \in SnPresetSet /\ E.setfilt = 0
+  \* the one type filter set after the preset, if any: accepted iff legal (hwloc.h, hwloc_topology_set_type_filter)
+  /\ IF E.tty = -1 THEN E.tf = -1 /\ E.settf = 0
+     ELSE E.tty \in 0..(NTYPES - 1) /\ E.tf \in 0..3 /\ E.settf = (IF FilterLegal(E.tty, E.tf) THEN 0 ELSE -1)
+  /\ E.setflags = (IF LLegal THEN 0 ELSE -1)
+  /\ E.errno \in STRING
+\* (1) fails cleanly or yields a topology carrying the configuration ...
+LoadOutcome ==
+  \/ LoadFails(E.ret, E.live[LS]) /\ Absent(LS)
+  \/ /\ HasTopo(LS) /\ FullConsistent(LS)
+     /\ LoadYields(E.ret, E.live[LS], TopoAt(LS), E.filt, E.tty, E.tf, LFlags)
+     /\ \A p \in env : p[1] = "HWLOC_COMPONENTS" => ConfigRespected(TopoAt(LS), LFlags, snap.kind, p[2])
+\* ... that is well-formed (only asked after LoadOutcome: a load that returned 0 then has a projection)
+LoadWellFormed == LOk => (IF E.pds[LS] \in wf THEN TRUE ELSE WellFormed(TopoAt(LS)))      \* IF, not \/: TLC would evaluate both disjuncts
+\* (2) same key, same outcome
+LoadDeterministic == SeenKey(LKey) => Deterministic(SeenOut(LKey), LOut)
+\* (3) INCLUDE_DISALLOWED against the load of the same key without the flag, whichever came first
+LoadDisallowed ==
+  /\ (LOk /\ Bit(LFlags, FLAG_INCLUDE_DISALLOWED)) =>
+       LET k0 == [LKey EXCEPT !.flags = LFlags - FLAG_INCLUDE_DISALLOWED] IN
+       (SeenKey(k0) /\ SeenOut(k0).ret = 0) => DisallowedRel(KnownTopo(SeenOut(k0).pd), TopoAt(LS))
+  /\ (LOk /\ ~Bit(LFlags, FLAG_INCLUDE_DISALLOWED)) =>
+       LET k1 == [LKey EXCEPT !.flags = LFlags + FLAG_INCLUDE_DISALLOWED] IN
+       (SeenKey(k1) /\ SeenOut(k1).ret = 0) => DisallowedRel(TopoAt(LS), KnownTopo(SeenOut(k1).pd))
+LoadOK == LoadShape /\ LoadOutcome /\ LoadWellFormed /\ LoadDeterministic /\ LoadDisallowed
+LoadWhy == IF ~LoadShape THEN "Shape" ELSE IF ~LoadOutcome THEN "Outcome" ELSE IF ~LoadWellFormed THEN "WellFormed"
+           ELSE IF ~LoadDeterministic THEN "Deterministic" ELSE "DisallowedRel"
+TLoad ==
+  /\ IsEvent("load") /\ ~oos
+  /\ IF LoadOK
+     THEN /\ seen' = IF SeenKey(LKey) THEN seen ELSE seen \cup {[key |-> LKey, out |-> LOut]}
+          /\ wf' = IF LOk THEN wf \cup {E.pds[LS]} ELSE wf
+          /\ known' = IF LOk THEN Learn({LS}) ELSE known
+          /\ slots' = [slots EXCEPT ![LS] = IF LOk THEN [live |-> TRUE, pd |-> E.pds[LS], flags |-> LFlags] ELSE DeadSlot]
+          /\ UNCHANGED <<oos, bad>>
+     ELSE /\ Reject("load", LoadWhy)
+          /\ (LoadWhy = "WellFormed") => WfDiag(TopoAt(LS))
+          /\ UNCHANGED <<seen, wf, known, slots>>
+  /\ UNCHANGED <<snap, rem, env, eq>>
 
 \* ---- XML round trip: relation (4) ----
+XS == E.src + 1
+XD == E.slot + 1
+XmlShape ==
+  /\ ShapeOK
+  /\ XS \in 1..NSlots /\ XD \in 1..NSlots /\ XS # XD
+  /\ slots[XS].live /\ ~slots[XD].live
+  /\ \A k \in 1..NSlots : (k # XS /\ k # XD) => Absent(k)
+  /\ E.flags = slots[XS].flags /\ E.keepall = 1
+  \* exporting is a consulting call: the source projects as before
+  /\ E.live[XS] = 1 /\ E.pds[XS] = slots[XS].pd /\ HasTopo(XS) /\ FullConsistent(XS)
+  \* what hwloc exported, hwloc loads
+  /\ E.exp = 0 /\ E.len > 0 /\ E.set = 0 /\ E.setflags = 0 /\ E.load = 0 /\ E.errno \in STRING
+  /\ E.live[XD] = 1 /\ HasTopo(XD) /\ FullConsistent(XD)
+XmlRel == IF <<E.pds[XS], E.pds[XD], E.flags>> \in eq THEN TRUE ELSE XmlSelfConsistent(TopoAt(XS), TopoAt(XD), E.flags)
 TXmlImport ==
   /\ IsEvent("xml_import") /\ ~oos
-  /\ ShapeOK
-  /\ LET s == E.src + 1  d == E.slot + 1 IN
-     /\ s \in 1..NSlots /\ d \in 1..NSlots /\ s # d
-     /\ slots[s].live /\ ~slots[d].live
-     /\ \A k \in 1..NSlots : (k # s /\ k # d) => Absent(k)
-     /\ E.flags = slots[s].flags /\ E.keepall = 1
-     \* exporting is a consulting call: the source projects as before
-     /\ E.live[s] = 1 /\ E.pds[s] = slots[s].pd /\ HasTopo(s) /\ FullConsistent(s)
-     \* what hwloc exported, hwloc loads
-     /\ E.exp = 0 /\ E.len > 0 /\ E.set = 0 /\ E.setflags = 0 /\ E.load = 0 /\ E.errno \in STRING
-     /\ E.live[d] = 1 /\ HasTopo(d) /\ FullConsistent(d)
-     /\ IF <<E.pds[s], E.pds[d], E.flags>> \in eq THEN TRUE ELSE XmlSelfConsistent(TopoAt(s), TopoAt(d), E.flags)
-     /\ eq' = eq \cup {<<E.pds[s], E.pds[d], E.flags>>}
-     /\ known' = Learn({s, d})
-     /\ slots' = [slots EXCEPT ![d] = [live |-> TRUE, pd |-> E.pds[d], flags |-> E.flags]]
-  /\ UNCHANGED <<snap, rem, env, seen, wf, oos>>
+  /\ IF XmlShape /\ XmlRel
+     THEN /\ eq' = eq \cup {<<E.pds[XS], E.pds[XD], E.flags>>}
+          /\ known' = Learn({XS, XD})
+          /\ slots' = [slots EXCEPT ![XD] = [live |-> TRUE, pd |-> E.pds[XD], flags |-> E.flags]]
+          /\ UNCHANGED <<oos, bad>>
+     ELSE /\ Reject("xml_import", IF XmlShape THEN "XmlSelfConsistent" ELSE "Shape")
+          /\ XmlShape => /\ PrintT(<<"EQUIVDIFF", l, EquivDiff(TopoAt(XS), TopoAt(XD), E.flags)>>)
+                         /\ PrintT(<<"MEMCCSONLY", l, MemCcsOnly(TopoAt(XS), TopoAt(XD), E.flags)>>)
+          /\ UNCHANGED <<eq, known, slots>>
+  /\ UNCHANGED <<snap, rem, env, seen, wf>>
 
-\* a behaviour that removed an instance directory on its own is not judged
+\* the loader process died, hung, or leaked memory (LeakSanitizer, consulted when the behaviour has released everything)
+TDied == /\ l <= Len(T) /\ T[l].e \in {"Crash", "Hang", "Leak"} /\ ~oos /\ l' = l + 1
+         /\ Reject(T[l].e, "memory error or hang")
+         /\ UNCHANGED <<snap, rem, env, slots, seen, known, wf, eq>>
+
+\* a behaviour that removed an instance directory on its own is not judged; nor is the rest of a rejected behaviour
 TOutOfScope == /\ oos /\ l <= Len(T) /\ T[l].e \notin {"Reset", "InfraFail"} /\ l' = l + 1
-               /\ UNCHANGED <<snap, rem, env, slots, seen, known, wf, eq, oos>>
+               /\ UNCHANGED <<snap, rem, env, slots, seen, known, wf, eq, oos, bad>>
 
-\* Crash / Hang / Leak / InfraFail events have no action: the trace is rejected there
-Next == TReset \/ TEnv \/ TCopy \/ TRemove \/ TDestroy \/ TLoad \/ TXmlImport \/ TOutOfScope
+\* the whole trace was read and no event was rejected
+TAccept == /\ l = Len(T) + 1 /\ bad = 0 /\ l' = l + 1
+           /\ UNCHANGED <<snap, rem, env, slots, seen, known, wf, eq, oos, bad>>
+
+\* InfraFail events (and events that break the recorder's own protocol) have no action: validation stops there
+Next == TReset \/ TEnv \/ TCopy \/ TRemove \/ TDestroy \/ TLoad \/ TXmlImport \/ TDied \/ TOutOfScope \/ TAccept
 Spec == Init /\ [][Next]_vars
 
-Accepted == TLCGet("stats").diameter - 1 = Len(T)
+Accepted == TLCGet("stats").diameter - 1 = Len(T) + 1
 =============================================================================
